@@ -1214,6 +1214,65 @@ def do_moc(env, st, i):
     return pairs
 
 
+@step('mocbig')
+def do_mocbig(env, st, i):
+    """write_moc / read of a map whose order is 15 or more (nside_sparse >= 32768: UNIQ numbers beyond 32 bits):
+    the map is built here directly from a short pixel list and everything is compared through pixel lists and
+    cell ranges — no array of the size of the sphere"""
+    import astropy.io.fits as afits
+    nc, ns = st['nc'], st['ns']
+    mx = int(round(np.log2(ns)))
+    mn = int(round(np.log2(nc)))
+    vp = sorted(set(int(p) for p in st['pixels']))
+    dt = DT[st.get('dtype', 'b')]
+
+    def build():
+        m = HealSparseMap.make_empty(nc, ns, dt)
+        m.update_values_pix(np.array(vp, dtype=np.int64), (True if np.dtype(dt).kind == 'b' else np.dtype(dt).type(1)))
+        return m
+    m, err = run_api(i, 'make_empty+update (order >= 15)', build)
+    if err:
+        return fail(i, err)
+    pairs = []
+    if sorted(int(p) for p in m.valid_pixels) != vp:
+        return fail(i, 'valid_pixels of a map at order >= 15 differ from the pixels written')
+    fname = os.path.join(tmpdir(), 'mocbig_%d_%d.fits' % (i, os.getpid()))
+    _, err = run_api(i, 'write_moc', lambda: m.write_moc(fname, clobber=True))
+    if err:
+        return fail(i, err)
+    with afits.open(fname) as hl:
+        uniq = sorted(int(u) for u in hl[1].data['UNIQ'])
+    cells = sorted(_expand_uniq(uniq, mx), key=lambda c: c[1])
+    for a, b in zip(cells, cells[1:]):
+        if b[1] < a[2]:
+            pairs += fail(i, 'MOC cells overlap')
+            break
+    ncov = sum(hi - lo for _, lo, hi in cells)
+    inside = all(any(lo <= p < hi for _, lo, hi in cells) for p in vp)
+    if ncov != len(vp) or not inside:
+        pairs += fail(i, 'the cells of the MOC file do not cover exactly the valid pixels',
+                      impl=dict(cells=[list(c) for c in cells[:10]], valid=vp[:10]))
+    if any(o < mn for o, _, _ in cells):
+        pairs += fail(i, 'a MOC cell is coarser than the coverage resolution')
+    res, err = run_api(i, 'read(moc)', lambda: HealSparseMap.read(fname, nside_coverage=nc))
+    if err:
+        pairs += fail(i, err)
+    else:
+        o2 = int(round(np.log2(res.nside_sparse)))
+        want = sorted(set(q for _, lo, hi in cells for q in range(lo >> (2 * (mx - o2)), ((hi - 1) >> (2 * (mx - o2))) + 1)))
+        got = sorted(int(p) for p in res.valid_pixels)
+        if got != want:
+            pairs += fail(i, 'the map read back from the MOC file covers a different part of the sky',
+                          impl=dict(got=got[:10], want=want[:10], order=o2))
+
+    def cmp(r, uniq=uniq):
+        if r[1] != uniq:
+            return [dict(step=i, what='UNIQ cells written differ from the writer model', layer='L1', impl=uniq[:40], model=r[1][:40])]
+        return []
+    pairs.append(([[30], [mx, mn], vp], cmp))
+    return pairs
+
+
 # ---------------------------------------------------------------- concatenation (C18)
 @step('cat')
 def do_cat(env, st, i):
